@@ -1,8 +1,234 @@
+/-
+EmdDriver.Protocol — JSON glue between the line protocol and the model (parsing / printing only).
+-/
 import Lean.Data.Json
-open Lean
+import EmdModel
+open Lean EmdModel
+
 namespace EmdDriver.Protocol
 
-def handle (op : String) (_j : Json) : Except String Json :=
-  throw ("bad-op " ++ op)
+abbrev P := Except String
+
+def optField (j : Json) (k : String) : Option Json :=
+  match j.getObjVal? k with
+  | .ok Json.null => none
+  | .ok v => some v
+  | .error _ => none
+
+def strField (j : Json) (k : String) : P String := do (← j.getObjVal? k).getStr?
+def arrField (j : Json) (k : String) : P (List Json) := do pure (← (← j.getObjVal? k).getArr?).toList
+
+def hexDigit (c : Char) : Option Nat :=
+  if '0' ≤ c ∧ c ≤ '9' then some (c.toNat - '0'.toNat)
+  else if 'a' ≤ c ∧ c ≤ 'f' then some (c.toNat - 'a'.toNat + 10)
+  else none
+
+def parseHex (s : String) : P UInt64 :=
+  s.toList.foldlM (fun acc c => match hexDigit c with
+    | some d => pure (acc * 16 + d.toUInt64)
+    | none => throw "bad hex") (0 : UInt64)
+
+def toHex (x : UInt64) : String :=
+  let ds := (List.range 16).map (fun i =>
+    let d := ((x >>> (UInt64.ofNat (4 * (15 - i)))) &&& 0xF).toNat
+    Char.ofNat (if d < 10 then '0'.toNat + d else 'a'.toNat + d - 10))
+  String.ofList ds
+
+-- ---------- AVal / Num / DVal / Obj
+
+def avalOfJson : Json → P AVal
+  | .str s => pure (.str s)
+  | j => do pure (.int (← j.getInt?))
+
+def avalToJson : AVal → Json
+  | .str s => .str s
+  | .int i => Json.num (JsonNumber.fromInt i)
+
+def attrsOfJson (j : Json) : P Attrs := do
+  let o ← j.getObj?
+  o.toList.mapM (fun (k, v) => do pure (k, ← avalOfJson v))
+
+def attrsToJson (a : Attrs) : Json := Json.mkObj (a.map (fun (k, v) => (k, avalToJson v)))
+
+def numOfJson : Json → P Num
+  | j@(.obj _) => do pure (.flt (← parseHex (← strField j "f")))
+  | j => do pure (.int (← j.getInt?))
+
+def numToJson : Num → Json
+  | .int v => Json.num (JsonNumber.fromInt v)
+  | .flt b => Json.mkObj [("f", .str (toHex b))]
+
+def strListOfJson (j : Json) : P (List String) := do (← j.getArr?).toList.mapM (·.getStr?)
+def strListToJson (l : List String) : Json := Json.arr (l.map Json.str).toArray
+
+def dvalOfJson : Json → P DVal
+  | .str s => pure (.tok s)
+  | j => do
+    if let some v := optField j "nums" then
+      return .nums (← (← v.getArr?).toList.mapM numOfJson)
+    if let some v := optField j "strs" then return .strs (← strListOfJson v)
+    if let some v := optField j "bytes" then return .bytes (← v.getStr?)
+    if let some v := optField j "scalar" then
+      return .scalar (← strField v "kind") (← strField v "repr")
+    if let some v := optField j "seq" then
+      return .seq (← strField v "dtype") (← strListOfJson (← v.getObjVal? "xs"))
+    if let some v := optField j "cells" then
+      return .cells (← strField v "dtype") (← (← v.getObjVal? "rows").getNat?) (← (← v.getObjVal? "cols").getNat?)
+        (← strListOfJson (← v.getObjVal? "cs"))
+    throw "bad dval"
+
+def dvalToJson : DVal → Json
+  | .tok t => .str t
+  | .nums xs => Json.mkObj [("nums", Json.arr (xs.map numToJson).toArray)]
+  | .strs xs => Json.mkObj [("strs", strListToJson xs)]
+  | .bytes s => Json.mkObj [("bytes", .str s)]
+  | .scalar k r => Json.mkObj [("scalar", Json.mkObj [("kind", .str k), ("repr", .str r)])]
+  | .seq d xs => Json.mkObj [("seq", Json.mkObj [("dtype", .str d), ("xs", strListToJson xs)])]
+  | .cells d r c cs => Json.mkObj [("cells", Json.mkObj [("dtype", .str d), ("rows", (r : Nat)), ("cols", (c : Nat)), ("cs", strListToJson cs)])]
+
+partial def objOfJson (j : Json) : P Obj := do
+  if let some a := optField j "g" then
+    let ks ← arrField j "k"
+    let kids ← ks.mapM (fun e => do
+      let pr ← e.getArr?
+      if pr.size != 2 then throw "bad kid"
+      pure ((← pr[0]!.getStr?), (← objOfJson pr[1]!)))
+    return .group (← attrsOfJson a) kids
+  if let some a := optField j "d" then
+    return .dataset (← attrsOfJson a) (← dvalOfJson (← j.getObjVal? "v"))
+  throw "bad obj"
+
+partial def objToJson : Obj → Json
+  | .group a kids => Json.mkObj [("g", attrsToJson a),
+      ("k", Json.arr (kids.map (fun (k, o) => Json.arr #[.str k, objToJson o])).toArray)]
+  | .dataset a v => Json.mkObj [("d", attrsToJson a), ("v", dvalToJson v)]
+
+def bodyOfJson (j : Json) : P (List (String × Obj)) := do
+  (← j.getArr?).toList.mapM (fun e => do
+    let pr ← e.getArr?
+    if pr.size != 2 then throw "bad body entry"
+    pure ((← pr[0]!.getStr?), (← objOfJson pr[1]!)))
+
+def bodyToJson (b : List (String × Obj)) : Json :=
+  Json.arr (b.map (fun (k, o) => Json.arr #[.str k, objToJson o])).toArray
+
+-- ---------- trees
+
+def infoOfJson (j : Json) : P NodeInfo := do
+  pure { name := ← strField j "n", cls := ← strField j "c", gtype := ← strField j "t",
+         body := ← bodyOfJson (← j.getObjVal? "b") }
+
+partial def treeOfJson (j : Json) : P Tree := do
+  let i ← infoOfJson j
+  let ks ← (← arrField j "k").mapM treeOfJson
+  pure (.mk i ks)
+
+def infoFields (i : NodeInfo) : List (String × Json) :=
+  [("n", .str i.name), ("c", .str i.cls), ("t", .str i.gtype), ("b", bodyToJson i.body)]
+
+partial def treeToJson : Tree → Json
+  | .mk i ks => Json.mkObj (infoFields i ++ [("k", Json.arr (ks.map treeToJson).toArray)])
+
+def optOfJson : Json → P TreeOpt
+  | .bool true => pure .yes
+  | .bool false => pure .no
+  | .null => pure .below
+  | _ => throw "bad tree option"
+
+def treeOptField (j : Json) : P TreeOpt :=
+  match j.getObjVal? "tree" with
+  | .ok v => optOfJson v
+  | .error _ => pure .yes
+
+def errToJson : Err → Json
+  | .refused w => Json.mkObj [("err", "refused"), ("why", .str w)]
+  | .error w => Json.mkObj [("err", "error"), ("why", .str w)]
+
+def srcOfJson (j : Json) : P Src := do
+  if let some u := optField j "unrooted" then return .unrooted (← infoOfJson u)
+  let r ← treeOfJson (← j.getObjVal? "root")
+  let t ← strListOfJson (← j.getObjVal? "target")
+  pure (.rooted r t)
+
+def readOutToJson : ReadOut → Json
+  | .node r p => Json.mkObj [("kind", "node"), ("root", treeToJson r), ("path", strListToJson p)]
+  | .rootnames ns => Json.mkObj [("kind", "rootnames"), ("names", strListToJson ns)]
+  | .metadata n o => Json.mkObj [("kind", "metadata"), ("name", .str n), ("obj", objToJson o)]
+
+-- ---------- history machine
+
+structure St where
+  fs : FS := []
+  sess : Session := {}
+  created : Nat := 0
+
+def noLegacy (_ : Obj) : R ReadOut := throw (.error "legacy import not modelled at this level")
+
+def step (st : St) (j : Json) : P (St × Json) := do
+  let what ← strField j "do"
+  match what with
+  | "save" =>
+    let path ← strField j "path"
+    let src ← srcOfJson (← j.getObjVal? "src")
+    let mode ← strField j "mode"
+    let opt ← treeOptField j
+    let ep := (optField j "emdpath").bind (fun v => v.getStr?.toOption)
+    let existed := (fsLookup st.fs path).isSome
+    match save st.sess s!"u{st.created}" st.fs path src mode opt ep with
+    | .ok fs' =>
+      -- a header (and so a UUID) is written exactly when a new file is created
+      let createdNow := !existed || (match classifyMode (effectiveMode mode ep) with
+        | some .overwrite => true | _ => false)
+      pure ({ st with fs := fs', created := if createdNow then st.created + 1 else st.created }, Json.mkObj [("ok", true)])
+    | .error e => pure (st, errToJson e)
+  | "read" =>
+    let path ← strField j "path"
+    let opt ← treeOptField j
+    let ep := (optField j "emdpath").bind (fun v => v.getStr?.toOption)
+    match readFS builtinClasses EmdGen.dataGroupTypes st.fs path ep opt noLegacy with
+    | .ok r => pure (st, readOutToJson r)
+    | .error e => pure (st, errToJson e)
+  | "put" =>
+    let path ← strField j "path"
+    if let some id := optField j "junk" then
+      pure ({ st with fs := fsSet st.fs path (.junk (← id.getStr?)) }, Json.mkObj [("ok", true)])
+    else
+      let o ← objOfJson (← j.getObjVal? "h5")
+      pure ({ st with fs := fsSet st.fs path (.h5 o) }, Json.mkObj [("ok", true)])
+  | "remove" =>
+    let path ← strField j "path"
+    pure ({ st with fs := fsErase st.fs path }, Json.mkObj [("ok", true)])
+  | "walk" =>
+    let path ← strField j "path"
+    match fsLookup st.fs path with
+    | none => pure (st, Json.mkObj [("absent", true)])
+    | some (.junk id) => pure (st, Json.mkObj [("junk", .str id)])
+    | some (.h5 f) => pure (st, Json.mkObj [("h5", objToJson f)])
+  | "info" =>
+    let path ← strField j "path"
+    match fsLookup st.fs path with
+    | some (.h5 f) =>
+      let v := match emdVersion f with
+        | some (a, b, c) => Json.arr #[Json.num (JsonNumber.fromInt a), Json.num (JsonNumber.fromInt b), Json.num (JsonNumber.fromInt c)]
+        | none => Json.null
+      pure (st, Json.mkObj [("is_emd", isEMDFile f), ("version", if isEMDFile f then v else Json.null),
+        ("rootgroups", strListToJson (rootGroups f))])
+    | some (.junk _) => pure (st, Json.mkObj [("err", "error")])
+    | none => pure (st, Json.mkObj [("err", "error")])
+  | "session" =>
+    let p := (optField j "program").bind (fun v => v.getStr?.toOption)
+    let u := (optField j "user").bind (fun v => v.getStr?.toOption)
+    pure ({ st with sess := { program := p.getD st.sess.program, user := u.getD st.sess.user } }, Json.mkObj [("ok", true)])
+  | _ => throw ("bad step " ++ what)
+
+def handle (op : String) (j : Json) : P Json := do
+  match op with
+  | "history" =>
+    let steps ← arrField j "steps"
+    let (_, outs) ← steps.foldlM (fun (acc : St × List Json) s => do
+      let (st', o) ← step acc.1 s
+      pure (st', o :: acc.2)) (({} : St), [])
+    pure (Json.mkObj [("out", Json.arr outs.reverse.toArray)])
+  | _ => throw ("bad-op " ++ op)
 
 end EmdDriver.Protocol
